@@ -8,6 +8,7 @@ _T = ["sc_is_canonical_iff", "ge_is_canonical_iff", "high_bits_imply_canonical_t
 THEOREMS = vcore.theorems_in("SodiumModel/Properties/C06.lean", _T, "Sodium.C06")
 IMPORTS = ["SodiumModel.Properties.C06"] if THEOREMS else ["SodiumModel.Spec.Ed25519"]
 TABLES = ['sc25519_L_eq', 'dom2prefix_eq']      # Tie B: kernel-checked `table regenerated from the source = model table`
+TIEB_SC = True     # Tie B: the sc25519 limb model is re-transcribed from the current source and the proofs re-checked against it
 RULE = ("all message lengths 0..300: seeded key pair, detached / combined / multi-part (pre-hashed) signing, verification in every form (the harness requires detached verify and "
         "combined open to agree and open to zero the buffer on failure); adversarial triples built with knowledge of the secret scalar so that exactly one check must stop them: "
         "S + k*L, S with high bits set, every torsion point and its non-canonical aliases as A and as R, torsion-shifted R and A with matching S, non-canonical y >= p, "
